@@ -651,8 +651,50 @@ func c02probes(c *core.Ctx) {
 	}
 }
 
+// RFC 7950 9.6.4.2 / 9.7.4.2: an enum without a value is one above the highest value so far (the first one 0), a
+// bit without a position likewise - also when the values so far are negative or not in ascending order
+func c02numbering(c *core.Ctx) {
+	y := `module nu { namespace "urn:nu"; prefix nu; revision 2020-01-01;
+  leaf e1 { type enumeration { enum a { value -3; } enum b; enum c { value 10; } enum d; } }
+  leaf e2 { type enumeration { enum a; enum b { value -5; } enum c; } }
+  leaf e3 { type enumeration { enum a { value -2147483648; } enum b; } }
+  leaf e4 { type enumeration { enum a { value 7; } enum b { value 3; } enum c; } }
+  typedef te { type enumeration { enum x { value -1; } enum y; enum z; } } leaf e5 { type te; } leaf-list e6 { type te; }
+  leaf b1 { type bits { bit p { position 5; } bit q; bit r { position 2; } bit s; } }
+  leaf b2 { type bits { bit p; bit q { position 0; } } } }`
+	if strings.Contains(y, "b2") {
+		// two bits with position 0 would be an error of the module: b2 is left out of the valid set
+		y = strings.Replace(y, "\n  leaf b2 { type bits { bit p; bit q { position 0; } } }", "", 1)
+	}
+	m, err := parser.LoadModuleFromString(nil, y)
+	if err != nil {
+		c.Violation(core.Replay{Kind: "property-failure", Class: "numbering-load", Summary: "valid module does not load: " + err.Error(), Input: y})
+		return
+	}
+	want := map[string]string{"e1": "a=-3 b=-2 c=10 d=11", "e2": "a=0 b=-5 c=1", "e3": "a=-2147483648 b=-2147483647", "e4": "a=7 b=3 c=8",
+		"e5": "x=-1 y=0 z=1", "e6": "x=-1 y=0 z=1", "b1": "p=5 q=6 r=2 s=7"}
+	for leaf, w := range want {
+		t := meta.Find(m, leaf).(meta.HasType).Type()
+		var got []string
+		for _, e := range t.Enum() {
+			got = append(got, fmt.Sprintf("%s=%d", e.Label, e.Id))
+		}
+		for _, b := range t.Bits() {
+			got = append(got, fmt.Sprintf("%s=%d", b.Ident(), b.Position))
+		}
+		c.Evaluations++
+		c.Count("numbering", leaf[:1])
+		c.Distinct("numbering " + leaf)
+		if g := strings.Join(got, " "); g != w {
+			c.Violation(core.Replay{Kind: "property-failure", Class: "numbering", Summary: fmt.Sprintf("leaf %s: the type has %s, RFC 7950 numbering gives %s", leaf, g, w),
+				Input: map[string]interface{}{"yang": y, "leaf": leaf}, Impl: g, Spec: w})
+		}
+	}
+}
+
 func C02(c *core.Ctx) {
-	c.Rule = "generated module sets (main module + submodule + imported module): typedef chains of depth 1–4 over int32/uint8/int64 (ranges), string (length, pattern), enumeration and bits (explicit, missing, zero and negative values; derived subsets), decimal64 (fraction-digits, range), boolean, identityref, leafref, unions of those, each level optionally stating default and units; typedefs at module level, in the submodule, in the imported module (prefixed) and local to a container (also shadowing a module-level name); leaves and leaf-lists of every level, with and without restrictions, default and units of their own, mandatory / min-elements 1 on a fifth of those without a default (the default of the type is then not the leaf's), at module level, in containers with local typedefs, and in a grouping used 1–3 times; for every leaf of the compiled tree the effective type read through the accessors (format, ranges, lengths, patterns, enum values, bit positions, union members, leafref path and target format, identityref bases, fraction-digits, default, units) compared with the Lean derivation; bits and enumerations written directly on leaf-lists; unions placed in a module-level typedef (member typedefs with default/units). non-trivial = leaf whose type is a typedef chain of depth ≥2 or a union; distinct by (module set, leaf)"
+	c02numbering(c)
+	c.Rule = "generated module sets (main module + submodule + imported module): typedef chains of depth 1–4 over int32/uint8/int64 (ranges), string (length, pattern), enumeration and bits (explicit, missing, zero and negative values; derived subsets), decimal64 (fraction-digits, range), boolean, identityref, leafref, unions of those, each level optionally stating default and units; typedefs at module level, in the submodule, in the imported module (prefixed) and local to a container (also shadowing a module-level name); leaves and leaf-lists of every level, with and without restrictions, default and units of their own, mandatory / min-elements 1 on a fifth of those without a default (the default of the type is then not the leaf's), at module level, in containers with local typedefs, and in a grouping used 1–3 times; for every leaf of the compiled tree the effective type read through the accessors (format, ranges, lengths, patterns, enum values, bit positions, union members, leafref path and target format, identityref bases, fraction-digits, default, units) compared with the Lean derivation; bits and enumerations written directly on leaf-lists; unions placed in a module-level typedef (member typedefs with default/units). non-trivial = leaf whose type is a typedef chain of depth ≥2 or a union; distinct by (module set, leaf); directed (c02numbering): automatic enum values and bit positions after negative, descending and extreme stated ones"
 	c.Assumptions = append(c.Assumptions,
 		"ranges are compared as written, level by level (their meaning for values is C05); identityref acceptance of derived identities is exercised by C05/C15",
 		"defaults are chosen inside every restriction of their chain so that every generated module set is valid")
